@@ -26,6 +26,8 @@ CONSTANTS GUnit,      \* 1 or 262144
           FarJumps,   \* allow jumps between corners of the coordinate range (deltas up to 2*MaxG)
           SweepOnly,  \* TRUE: every glyph after the first is exactly one stack-limit sweep (enumerated)
           SweepA, SweepB,  \* delta magnitudes used by the sweeps (units)
+          SweepKinds, \* which sweeps are enabled: "count", "delta", "value"
+          ValuePos,   \* operand positions swept by the value sweep
           Sim
 
 Abs(v) == IF v < 0 THEN -v ELSE v
@@ -223,7 +225,7 @@ SweepTrail(f, v, a, b) ==        \* the segment that closes the mixed forms
     [] OTHER -> <<>>
 
 Sweep ==
-  /\ Body
+  /\ Body /\ "count" \in SweepKinds
   /\ SweepOnly => (steps = 0 /\ Len(font) > 0)
   /\ \E f \in Pick(SweepForms) : \E k \in Pick(SweepK(f)) : \E v \in Pick(SweepVars) :
      \E a \in Pick(SweepA), b \in Pick(SweepB) :
@@ -255,7 +257,7 @@ Sweep ==
 (***************************************************************************)
 SweepDeltas == {32767, 32768, 32769, 63999, 64000}
 DeltaSweep ==
-  /\ Body /\ (SweepOnly \/ FarJumps)
+  /\ Body /\ (SweepOnly \/ FarJumps) /\ "delta" \in SweepKinds
   /\ MaxG \div GUnit >= 32000                     \* integer configuration only (32-bit arithmetic)
   /\ SweepOnly => (steps = 0 /\ Len(font) > 0 /\ NStems <= 2)
   /\ \E d0 \in Pick(SweepDeltas), sg \in Pick({-1, 1}), ax \in Pick({"x", "y", "xy"}),
@@ -280,6 +282,69 @@ DeltaSweep ==
           /\ Add(cs, last[2], last[3])
   /\ moved' = TRUE
 
+(***************************************************************************)
+(* Operand-value sweep.  A FULL operator of every form (48 operands; 44    *)
+(* for rcurveline) in which exactly one operand, at position p = 1..48,    *)
+(* is a number that does not fit one plain operand: in the integer         *)
+(* configuration a delta of magnitude >= 32768 (the encoder has to write   *)
+(* it as a sum and needs a second stack entry while doing so), in the      *)
+(* fractional configuration a value that needs the five-byte 16.16 form.   *)
+(* Both starting orientations of the alternating forms are forms of their  *)
+(* own.  The emitted program must stay within 48 stack entries at every    *)
+(* step and reproduce the path (Type2Trace.tla).                           *)
+(***************************************************************************)
+FullK(f) == CASE f = "rlineto" -> 24 [] f \in {"hvlineto", "vhlineto"} -> 48 [] f = "rrcurveto" -> 8
+              [] f = "rlinecurve" -> 21 [] f = "rcurveline" -> 7 [] OTHER -> 12
+FullOps(f) == IF f = "rcurveline" THEN 44 ELSE 48
+\* the segment and the component of its relative-delta tuple that operand p of the operator is
+Nth(t, n) == t[n]
+OperandAt(f, p) ==
+  LET q  == p - 1
+      i4 == (q \div 4) + 1
+      s4 == (q % 4) + 1
+      i2 == (q \div 2) + 1
+      c2 == (q % 2) + 1
+      i6 == (q \div 6) + 1
+      c6 == (q % 6) + 1
+      hstart == ((i4 % 2) = 1) = (f = "hvcurveto")
+  IN CASE f = "rlineto"    -> <<i2, c2>>
+       [] f = "hvlineto"   -> <<p, c2>>
+       [] f = "vhlineto"   -> <<p, 3 - c2>>
+       [] f = "rrcurveto"  -> <<i6, c6>>
+       [] f = "rlinecurve" -> IF p <= 42 THEN <<i2, c2>> ELSE <<22, p - 42>>
+       [] f = "rcurveline" -> IF p <= 42 THEN <<i6, c6>> ELSE <<8, p - 42>>
+       [] f = "hhcurveto"  -> <<i4, Nth(<<1, 3, 4, 5>>, s4)>>
+       [] f = "vvcurveto"  -> <<i4, Nth(<<2, 3, 4, 6>>, s4)>>
+       [] OTHER -> <<i4, IF hstart THEN Nth(<<1, 3, 4, 6>>, s4) ELSE Nth(<<2, 3, 4, 5>>, s4)>>
+
+ValueSweep ==
+  /\ Body /\ "value" \in SweepKinds
+  /\ SweepOnly => (steps = 0 /\ Len(font) > 0 /\ NStems = 0 /\ Len(wp) > 1 /\ wp[1] # wp[2])
+  /\ \E f \in Pick(SweepForms) : \E p \in Pick({q \in ValuePos : q <= FullOps(f)}) :
+     \E a \in Pick(SweepA), b \in Pick(SweepB) :
+       LET k    == FullK(f)
+           big  == MaxG \div GUnit >= 32000          \* integer configuration
+           sg   == IF p % 2 = 0 THEN -1 ELSE 1
+           val  == IF big THEN sg * (32768 + p) * GUnit ELSE sg * (a + GUnit \div 2)
+           at   == OperandAt(f, p)
+           base == [i \in 1..k |-> SweepSeg(f, i, a, b)] \o SweepTrail(f, "plain", a, b)
+           segs == [base EXCEPT ![at[1]][at[2]] = val]
+           onx  == IF Len(base[at[1]]) = 2 THEN at[2] = 1 ELSE at[2] % 2 = 1
+           sx   == IF big /\ onx THEN -(val \div 2) ELSE 0
+           sy   == IF big /\ ~onx THEN -(val \div 2) ELSE 0
+           step(acc, d) ==
+             IF ~acc.ok THEN acc
+             ELSE IF Len(d) = 2
+             THEN LET nx == acc.px + d[1]  ny == acc.py + d[2] IN
+                  [px |-> nx, py |-> ny, ok |-> InRange(nx) /\ InRange(ny),
+                   out |-> Append(acc.out, <<"l", nx, ny>>)]
+             ELSE LET r == Abscurve(acc.px, acc.py, d) IN
+                  [px |-> r.px, py |-> r.py, ok |-> r.ok, out |-> Append(acc.out, r.cmd)]
+           r == FoldLeft(step, [px |-> sx, py |-> sy, ok |-> TRUE, out |-> <<>>], segs)
+       IN /\ r.ok
+          /\ Add(<< <<"m", sx, sy>> >> \o r.out \o << <<"m", a, b>> >>, a, b)
+  /\ moved' = TRUE
+
 EndGlyph ==
   /\ st = "body"
   /\ SweepOnly => (steps = MaxSteps \/ Len(font) = 0)      \* the first glyph (.notdef) stays empty
@@ -287,7 +352,7 @@ EndGlyph ==
   /\ st' = IF Len(font) + 1 = ng THEN "done" ELSE "new"
   /\ UNCHANGED <<x, y, steps, ng, wp, moved>>
 
-Next == StartGlyph \/ Mask \/ Move \/ Far \/ Line \/ Curve \/ FlexPair \/ Run \/ Sweep \/ DeltaSweep \/ EndGlyph
+Next == StartGlyph \/ Mask \/ Move \/ Far \/ Line \/ Curve \/ FlexPair \/ Run \/ Sweep \/ DeltaSweep \/ ValueSweep \/ EndGlyph
 Spec == Init /\ [][Next]_vars
 
 (***************************************************************************)
@@ -313,6 +378,41 @@ MoveFirst ==   \* the first path command of every glyph is a move; counter masks
 StemsOK == \A i \in 1..Len(AllGlyphs) : Len(AllGlyphs[i].hs) % 2 = 0 /\ Len(AllGlyphs[i].vs) % 2 = 0
                                         /\ Len(AllGlyphs[i].hs) + Len(AllGlyphs[i].vs) <= 192
 
-Case == [gunit |-> GUnit, glyphs |-> font]
+(***************************************************************************)
+(* Width selection.  How the two width defaults are chosen is the          *)
+(* encoder's business and no part of the property; the rule of             *)
+(* cff/write.go (most frequent integer width; mean of the others, kept     *)
+(* 107 away from their extremes) is modelled here ONLY to find inputs: the *)
+(* width-selection sweep enumerates width sequences and TLC classifies     *)
+(* each by the special value the rule lands on, so that every class        *)
+(* (nominal = 0, nominal clamped below / above, default = 0, default =     *)
+(* nominal, default # 0 with nominal 0, all equal, one glyph, negative)    *)
+(* is known to be hit.  The verdict never uses this model.                 *)
+(***************************************************************************)
+SelDefault(ws) ==     \* first width to reach the highest count, in glyph order
+  LET Count(w, n) == Cardinality({j \in 1..n : ws[j] = w})
+      step(acc, i) == IF Count(ws[i], i) > acc.c THEN [w |-> ws[i], c |-> Count(ws[i], i)] ELSE acc
+  IN FoldLeft(step, [w |-> 0, c |-> 0], [i \in 1..Len(ws) |-> i]).w
+RoundDiv(a, n) == IF a >= 0 THEN (2 * a + n) \div (2 * n) ELSE -((2 * (-a) + n) \div (2 * n))
+WidthClasses(ws) ==
+  IF Len(ws) = 0 \/ GUnit # 1 THEN {}
+  ELSE IF Len(ws) = 1 THEN {"one glyph"} \cup (IF ws[1] < 0 THEN {"negative"} ELSE {})
+  ELSE LET d == SelDefault(ws)
+           O == {j \in 1..Len(ws) : ws[j] # d}
+       IN (IF \E j \in 1..Len(ws) : ws[j] < 0 THEN {"negative"} ELSE {})
+          \cup (IF d = 0 THEN {"default 0"} ELSE {})
+          \cup IF O = {} THEN {"all equal"}
+               ELSE LET sum == FoldLeft(LAMBDA tot, j : tot + ws[j], 0, SetToSeq(O))
+                        mn == CHOOSE v \in {ws[j] : j \in O} : \A j \in O : v <= ws[j]
+                        mx == CHOOSE v \in {ws[j] : j \in O} : \A j \in O : v >= ws[j]
+                        raw == RoundDiv(sum, Len(ws))
+                        nom == IF raw < mn + 107 THEN mn + 107 ELSE IF raw > mx - 107 THEN mx - 107 ELSE raw
+                    IN (IF raw < mn + 107 THEN {"nominal clamped to min+107"}
+                        ELSE IF raw > mx - 107 THEN {"nominal clamped to max-107"} ELSE {"nominal unclamped"})
+                       \cup (IF nom = 0 THEN {"nominal 0"} ELSE {})
+                       \cup (IF nom = 0 /\ d # 0 THEN {"default non-zero with nominal 0"} ELSE {})
+                       \cup (IF nom = d THEN {"default equals nominal"} ELSE {})
+
+Case == [gunit |-> GUnit, glyphs |-> font, cls |-> WidthClasses([i \in 1..Len(font) |-> font[i].w])]
 Emit == st = "done" => PrintT(<<"CASE", ToJson(Case)>>)
 =============================================================================
